@@ -661,6 +661,54 @@ def read_io_tables(wntr):
     return rows, fns, consts
 
 
+READER_SECTION = {"_read_title": "[TITLE]", "_read_report": "[REPORT]", "_read_labels": "[LABELS]", "_read_backdrop": "[BACKDROP]", "_read_end": None,
+                  "_read_control_line": None, "_read_controls": "[CONTROLS]", "_read_rules": "[RULES]"}
+# sections whose reader is sensitive to the ORDER of the lines inside the section (hand-written; the permutation oracle never
+# shuffles these and shuffles all the others): text kept verbatim, continuation lines, position-dependent names, "first line
+# of a node resets", ORDER before coefficients, point / vertex / entry order
+ORDER_SENSITIVE = ["[TITLE]", "[CURVES]", "[PATTERNS]", "[CONTROLS]", "[RULES]", "[DEMANDS]", "[SOURCES]", "[REACTIONS]", "[VERTICES]", "[LABELS]",
+                   "[BACKDROP]", "[REPORT]",
+                   # found by the permutation oracle: `_read_options` converts MINIMUM / REQUIRED PRESSURE with the flow units read
+                   # SO FAR -- a file with those lines before UNITS raises AttributeError ('NoneType' has no 'is_traditional');
+                   # WNTR's writer puts UNITS first, EPANET itself does not care about the order
+                   "[OPTIONS]"]
+
+
+def read_sections_and_order(path=None):
+    """`_INP_SECTIONS` and the order in which `InpFile.read` calls the section readers (ast)"""
+    tree = ast.parse(open(path or os.path.join(vlib.REPO, "wntr", "epanet", "io.py")).read())
+    secs = None
+    for n in tree.body:
+        if isinstance(n, ast.Assign) and len(n.targets) == 1 and isinstance(n.targets[0], ast.Name) and n.targets[0].id == "_INP_SECTIONS":
+            secs = [e.value for e in n.value.elts if isinstance(e, ast.Constant)]
+    if not secs:
+        raise BrokenTie("wntr/epanet/io.py: _INP_SECTIONS is not a literal list of strings")
+    cls = [n for n in tree.body if isinstance(n, ast.ClassDef) and n.name == "InpFile"]
+    rd = [n for n in cls[0].body if isinstance(n, ast.FunctionDef) and n.name == "read"] if cls else []
+    if not rd:
+        raise BrokenTie("InpFile.read not found")
+    sec_of = {f: "[%s]" % sec for (f, d, sec) in FUNCS if d == "r"}
+    sec_of.update(READER_SECTION)
+    order = []
+    for n in ast.walk(rd[0]):
+        pass
+    calls = [n for n in ast.walk(rd[0]) if isinstance(n, ast.Call) and isinstance(n.func, ast.Attribute) and isinstance(n.func.value, ast.Name)
+             and n.func.value.id == "self" and n.func.attr.startswith("_read_")]
+    calls.sort(key=lambda n: (n.lineno, n.col_offset))
+    for c in calls:
+        if c.func.attr not in sec_of:
+            raise BrokenTie("InpFile.read calls an unknown section reader %s" % c.func.attr)
+        if sec_of[c.func.attr]:
+            order.append(sec_of[c.func.attr])
+    # the line loop of `read` must still have the shape the model transliterates
+    src = ast.unparse(rd[0])
+    for needle in ("line = line.strip()", "line.startswith('[')", "sec = vals[0].upper()", "sec.replace(']', 'S]')", "sec.replace('S]', ']')", "sec == '[END]'",
+                   "section is None and line.startswith(';')", "self.sections[section].append((lnum, line))"):
+        if needle not in src:
+            raise BrokenTie("InpFile.read: the line loop no longer contains `%s` (Model/InpText.lean InpRead transliterates it)" % needle)
+    return secs, order
+
+
 def read_keywords(fns):
     """option / time keywords: written per version, and recognised by the readers"""
     out = {"w22": [], "w20": [], "r": []}
@@ -1007,6 +1055,11 @@ def gen_schema_inp_lean(wntr, rows, kw):
         "  { what := %s, ids := %s, need := %s }" % (_ls(d), ids(a, b, c), spec_lean(n)) for (d, a, b, c, n) in precision_requirements()))
     out.append("def readerOnly : List (Nat × Nat × List Nat) := [%s]\n" % ", ".join(ids(a, b, c) for a, b, c in READER_ONLY))
     out.append("/-- the string numbering used in `ids` -/\ndef strings : List String := %s\n" % _ll(strings))
+    secs, order = read_sections_and_order()
+    out.append("/-- `_INP_SECTIONS` -/\ndef inpSections : List String := %s\n" % _ll(secs))
+    out.append("/-- the sections in the order in which `InpFile.read` calls their readers (ast) -/\ndef readOrder : List String := %s\n" % _ll(order))
+    out.append("/-- sections whose reader depends on the order of the lines inside (hand-written; tied by the permutation oracle) -/")
+    out.append("def orderSensitive : List String := %s\n" % _ll(ORDER_SENSITIVE))
     od = wntr.network.WaterNetworkModel().options.to_dict()
     out.append("/-- keys of `Options.to_dict()` per group (reflection) -/")
     out.append("def optionKeys : List (String × List String) := [\n%s]\n" % ",\n".join(
@@ -1505,6 +1558,54 @@ def directed_specs():
     return out
 
 
+def permute_inp(text, rng, shuffle_section=None):
+    """a format-preserving rewrite of an INP file WNTR wrote: whole sections in another order, header spelling (case,
+    plural S), blank and comment lines, tabs for blanks; `shuffle_section`: additionally the data lines of that ONE section
+    in another order (only asked for sections not in ORDER_SENSITIVE)"""
+    lines = text.splitlines()
+    pre, blocks, cur = [], [], None
+    for ln in lines:
+        if ln.strip().startswith("["):
+            cur = [ln.strip().split()[0], []]
+            blocks.append(cur)
+        elif cur is None:
+            pre.append(ln)
+        else:
+            cur[1].append(ln)
+    end = [b for b in blocks if b[0].upper() == "[END]"]
+    blocks = [b for b in blocks if b[0].upper() != "[END]"]
+    rng.shuffle(blocks)
+    out = list(pre)
+    verbatim = ("[TITLE]", "[LABELS]", "[BACKDROP]")
+    for name, body in blocks:
+        up = name.upper()
+        style = rng.randrange(4)
+        hdr = name.lower() if style == 0 else name.capitalize() if style == 1 else name
+        if style == 3 and up.endswith("S]") and up not in ("[STATUS]",):
+            hdr = name[:-2] + "]"  # the reader accepts a missing plural S
+        out.append(("  " if rng.random() < 0.3 else "") + hdr + ("   ;section" if rng.random() < 0.3 else ""))
+        data = [l for l in body]
+        if shuffle_section == up:
+            idx = [i for i, l in enumerate(data) if l.split(";")[0].split()]
+            vals = [data[i] for i in idx]
+            rng.shuffle(vals)
+            for i, v in zip(idx, vals):
+                data[i] = v
+        for l in data:
+            if rng.random() < 0.15:
+                out.append(rng.choice(["", "   ", "\t", "; a comment line", "  ;another"]))
+            if up not in verbatim and l.strip() and rng.random() < 0.5:
+                head, sep, tail = l.partition(";")
+                head = re.sub(r"^ +", lambda m: "\t", head)
+                head = re.sub(r"  +", lambda m: rng.choice(["\t", " \t ", m.group(0)]), head)
+                l = head + sep + tail
+            out.append(l)
+    for name, body in end:
+        out.append(name)
+        out += ["this text after [END] is never read", "[NOSUCHSECTION]"] if rng.random() < 0.5 else []
+    return "\n".join(out) + "\n"
+
+
 def normalise_text(txt):
     """an INP file modulo the header comment lines (file name, WNTR version, creation time)"""
     return "\n".join(l.rstrip() for l in txt.splitlines() if not l.startswith("; "))
@@ -1596,6 +1697,45 @@ class C12(Check):
                 seen.add(key)
                 F(key, "re-read model differs at %s: %r -> %r (units %s, version %s) %s" % (path, old, new, units, version, note),
                   where=path, expected=old, observed=new)
+            # ---- format-preserving permutations of the file must read back to the same model (exact)
+            import random as _random
+            prng = _random.Random(hash((label, units, version)) & 0xFFFFFF)
+            t1raw = open(f1).read()
+            d2 = G.jsonify(wntr.network.to_dict(w2))
+            secs_present = [b for b in re.findall(r"^\[[A-Z]+\]", t1raw, re.M)]
+            cand = []
+            for sname in secs_present:
+                if sname not in ORDER_SENSITIVE and sname != "[END]":
+                    body = t1raw.split(sname, 1)[1].split("\n[", 1)[0]
+                    if sum(1 for l in body.splitlines()[1:] if l.split(";")[0].split()) >= 2:
+                        cand.append(sname)
+            for kind, sh in (("format", None), ("lines", prng.choice(cand) if cand else None)):
+                if kind == "lines" and sh is None:
+                    continue
+                ptxt = permute_inp(t1raw, prng, sh)
+                with open(f1, "w") as fh:
+                    fh.write(ptxt)
+                try:
+                    wp = wntr.network.read_inpfile(f1)
+                except Exception as e:
+                    F("permute-%s-read-raises-%s" % (kind if sh is None else "lines-" + sh.strip("[]").lower(), type(e).__name__),
+                      "a format-preserving rewrite of the file WNTR wrote cannot be read: %s: %s" % (type(e).__name__, str(e)[:150]), permuted=ptxt[:4000], observed=repr(e))
+                    continue
+                if ctx:
+                    ctx.count("permute:" + (kind if sh is None else "lines:" + sh))
+                if kind == "format":
+                    df = G.diff(d2, G.jsonify(wntr.network.to_dict(wp)))
+                    self.file_requests.append((ptxt, {k: [l for (_, l) in v] for k, v in wp._inpfile.sections.items()}, "%s %s %s" % (label, units, version)))
+                else:
+                    df = G.diff({k: v for k, v in m2.items() if k != "order"}, {k: v for k, v in canon(wntr, wp).items() if k != "order"})
+                if df:
+                    top = df[0][0].strip("/").split("/")[0].split("[")[0]
+                    F("permute-%s-%s" % ("format" if sh is None else "lines-" + sh.strip("[]").lower(), top),
+                      "a format-preserving rewrite of the file (%s) reads back differently at %s: %r -> %r" % (
+                          "sections permuted, header spelling, blank/comment lines, tabs" if sh is None else "lines of %s permuted" % sh, df[0][0], df[0][1], df[0][2]),
+                      where=df[0][0], expected=df[0][1], observed=df[0][2], permuted=ptxt[:6000])
+            with open(f1, "w") as fh:
+                fh.write(t1raw)
             # ---- second cycle: nothing further changes
             try:
                 wntr.network.write_inpfile(w2, f2, units=units, version=version)
@@ -1639,6 +1779,7 @@ class C12(Check):
         if not hasattr(self, "rows"):
             raise BrokenTie("translator produced no tables")
         prec = Precision(wntr, self.rows)
+        self.file_requests = []
         workdir = os.path.join(WORK, "run-%d" % os.getpid())
         os.makedirs(workdir, exist_ok=True)
         nunits = 3 if ctx.quick else 10
@@ -1681,7 +1822,41 @@ class C12(Check):
             except OSError:
                 pass
         broken += self._text_correspondence(ctx, wntr, text_lines)
+        broken += self._file_correspondence(ctx)
         return failures, broken
+
+    def _file_correspondence(self, ctx):
+        """the model's first loop of `InpFile.read` (blank lines, headers, [END], stored lines) on whole permuted files against
+        the sections the real reader stored"""
+        broken = []
+        reqs = self.file_requests[:: max(1, len(self.file_requests) // (25 if ctx.quick else 120))]
+        malformed = [("junk before the first header\n[JUNCTIONS]\n J1 0 0\n", None), ("[JUNCTIONS]\n J1 0 0\n[NOSUCH]\n x\n", None),
+                     ("; only comments\n\n[END]\n[JUNCTIONS]\n J1 0 0\n", {})]
+        lines = ["S\x1f" + "\x1f".join(t.splitlines()) for t, _, _ in reqs] + ["S\x1f" + "\x1f".join(t.splitlines()) for t, _ in malformed]
+        if not lines:
+            return broken
+        out = vlib.lean_run("Drivers/InpDriver.lean", "\n".join(lines) + "\n")
+        if len(out) != len(lines):
+            raise vlib.Infra("InpDriver returned %d lines for %d files" % (len(out), len(lines)))
+        exps = [(secs, what) for _, secs, what in reqs] + [(e, "malformed %d" % i) for i, (_, e) in enumerate(malformed)]
+        nmis = 0
+        for (secs, what), got in zip(exps, out):
+            parts = got.split("\x02")
+            status, model = parts[0], {}
+            for p in parts[1:]:
+                k, _, v = p.partition("\x1f")
+                if k != "#top":
+                    model.setdefault(k, []).append(v)
+            if secs is None:
+                ok = status == "err"
+            else:
+                ok = status in ("ok", "end") and {k: v for k, v in secs.items() if v} == model
+            ctx.count("file-model-vs-impl:" + ("agree" if ok else "disagree"))
+            if not ok and nmis < 4:
+                nmis += 1
+                bad = [k for k in set(model) | set(secs or {}) if (secs or {}).get(k, []) != model.get(k, [])][:3]
+                broken.append(Broken("correspondence", "InpDriver S", "model of InpFile.read stores other lines than the implementation for %s: status %s, sections %s" % (what, status, bad)))
+        return broken
 
     # ---------------------------------------------------------------- control / rule text: model vs implementation
     def _text_requests(self, wntr, label, sp, wn):
@@ -1922,6 +2097,7 @@ class C12(Check):
         """a broken table proof / translator: run the directed models and a wider stream in all ten units"""
         wntr = vlib.import_wntr()
         logging.getLogger("wntr").setLevel(logging.CRITICAL)
+        self.file_requests = []
         rows = getattr(self, "rows", None)
         if rows is None:
             try:
@@ -1956,6 +2132,7 @@ class C12(Check):
         rp = r.get("replay", {})
         print(json.dumps({k: v for k, v in r.items() if k != "replay"}, indent=1)[:2000])
         rows, _, _ = read_io_tables(wntr)
+        self.file_requests = []
         workdir = os.path.join(WORK, "replay-%d" % os.getpid())
         os.makedirs(workdir, exist_ok=True)
         try:
